@@ -23,6 +23,7 @@ type pcell struct {
 	Kind     string `json:"kind"` // styled json pass
 	Op       string `json:"op"`
 	Name     string `json:"name"`
+	Override bool   `json:"override"` // the path item declares a laxer parameter of the same name and location; the operation's declaration governs
 }
 
 func (c pcell) effStyle() string {
@@ -50,7 +51,11 @@ func (c pcell) key() string {
 	if c.Explode != nil {
 		e = fmt.Sprint(*c.Explode)
 	}
-	return fmt.Sprintf("%s/%s/%s/%s/%v/%s", c.Loc, c.Style, e, c.Shape, c.Required, c.Kind)
+	k := fmt.Sprintf("%s/%s/%s/%s/%v/%s", c.Loc, c.Style, e, c.Shape, c.Required, c.Kind)
+	if c.Override {
+		k += "/overrides-path-level"
+	}
+	return k
 }
 
 func bp(b bool) *bool { return &b }
@@ -112,6 +117,9 @@ func paramCells(loc string) []pcell {
 	for _, rq := range reqs {
 		add(pcell{Shape: "obj", Required: rq, Kind: "json"})
 	}
+	// an operation-level declaration that overrides a laxer path-level one (optional string -> required integer / uuid)
+	add(pcell{Shape: "int", Required: true, Kind: "styled", Override: true})
+	add(pcell{Shape: "uuid", Required: true, Kind: "styled", Override: true})
 	return out
 }
 
@@ -168,7 +176,15 @@ func paramSpec(cells []pcell) []byte {
 		if c.Loc == "path" {
 			path += "/{" + c.Name + "}"
 		}
-		paths[path] = map[string]any{"get": map[string]any{"operationId": c.Op, "parameters": []any{p}, "responses": map[string]any{"204": map[string]any{"description": "ok"}}}}
+		item := map[string]any{"get": map[string]any{"operationId": c.Op, "parameters": []any{p}, "responses": map[string]any{"204": map[string]any{"description": "ok"}}}}
+		if c.Override {
+			lax := map[string]any{"name": c.Name, "in": c.Loc, "schema": map[string]any{"type": "string"}}
+			if c.Loc == "path" {
+				lax["required"] = true
+			}
+			item["parameters"] = []any{lax}
+		}
+		paths[path] = item
 	}
 	b, _ := json.Marshal(map[string]any{"openapi": "3.0.3", "info": map[string]any{"title": "params", "version": "1"}, "paths": paths})
 	return b
@@ -223,8 +239,43 @@ func styleDelims(style string, explode bool, shape string) string {
 	return d
 }
 
+// stringClasses are swept for every cell that carries strings: the i-th value of such a cell has (at least)
+// one string of the i-th class, unless the class only has strings containing the cell's own delimiters.
+var stringClasses = []string{"alnum", "unicode", "space", "reserved", "plus", "amp", "semi", "dot", "comma", "quote"}
+
+var forcedClass string // consumed by the next genString call
+
+func carriesStrings(c pcell) bool { return c.Shape == "string" || c.Shape == "arr:string" || c.Shape == "obj" }
+
+// valuesPerCell: string-bearing cells sweep the classes; the others take k values
+func valuesPerCell(c pcell, k int) int {
+	if carriesStrings(c) && k < len(stringClasses) {
+		return len(stringClasses)
+	}
+	return k
+}
+
+func genValueAt(rng *rand.Rand, c pcell, i int) pvalue {
+	if carriesStrings(c) {
+		forcedClass = stringClasses[i%len(stringClasses)]
+	}
+	v := genValue(rng, c)
+	forcedClass = ""
+	return v
+}
+
 func genString(rng *rand.Rand, c pcell) (string, string) {
 	classes := []string{"alnum", "alnum", "unicode", "space", "reserved", "plus", "amp", "semi", "dot", "comma", "quote"}
+	if fc := forcedClass; fc != "" {
+		forcedClass = ""
+		for try := 0; try < 8; try++ {
+			s := strClasses[fc][rng.Intn(len(strClasses[fc]))]
+			if c.Kind == "styled" && strings.ContainsAny(s, styleDelims(c.effStyle(), c.effExplode(), c.Shape)) {
+				continue
+			}
+			return s, fc
+		}
+	}
 	for {
 		cl := classes[rng.Intn(len(classes))]
 		s := strClasses[cl][rng.Intn(len(strClasses[cl]))]
